@@ -450,10 +450,12 @@ pub fn gen_map(t: &mut Tape, p: &MapProfile) -> MapSpec {
                         _ => -(t.range(1, 500) as f64),
                     }
                 } else {
-                    match t.weighted(&[6, 2, 1]) {
+                    match t.weighted(&[60, 20, 10, 1]) {
                         0 => t.range(80, 1500) as f64,
                         1 => t.range(1, 99) as f64,
-                        _ => 0.0,
+                        2 => 0.0,
+                        // hours-long hold note: its combo alone exceeds 65535
+                        _ => t.range(6_600_000, 30_000_000) as f64,
                     }
                 };
                 ObjKind::Hold { end: time + d }
